@@ -11,7 +11,7 @@ def main():
                       'LAFEM::Transfer::{prol,rest,trunc}', 'LAFEM::SparseMatrixCSR::{transpose,scale_rows}', 'Geometry::Intern::CoarseFineCellMapping']
     chk.assume(*e2prop.E2_ASSUME)
     chk.assume('identities seen through a pivoted symbolic matrix inversion are only decidable for few geometry parameters: quadrilaterals/hexahedra, fully symbolic vertices and multi-level/global transfer objects are outside (DESIGN section C18)')
-    e2prop.run_e2(chk, e2prop.e2_harness_path('c18_e2.cpp'), 'c18_e2', timeout=40 if quick else 600, harness_args=['--bounds', lvl], max_group=1)
+    e2prop.run_e2(chk, e2prop.e2_harness_path('c18_e2.cpp'), 'c18_e2', timeout=40 if quick else 120, harness_args=['--bounds', lvl], max_group=1)
     return chk.finish(
         explanation='Partial and restricted (stated): on one coarse simplex from a 1-3 parameter affine family, refined by the real refinery, the real GridTransfer assembly is executed symbolically; z3 decides that every prolongation row sums to 1, that for Lagrange1 every entry equals the value of the coarse basis function at the fine node (1, 1/2, 0), that the restriction matrix is the transpose, and that LAFEM::Transfer and the matrix-free prolongation agree with the assembled matrices for all vectors.',
         rule=e2prop.E2_RULE, trusted=e2prop.E2_TRUSTED)
